@@ -1,5 +1,5 @@
 """C34 only public definitions are visible through imports."""
-REG_DRAFT = dict(
+REG = dict(
     engine='E1-enum',
     technique='exhaustive enumeration of multi-file projects (import graph x `as` choice per edge x referenced item x access form), each checked with the real `garden check` and `garden run` against a three-line visibility reference',
     text="Projects of 2 files (every subset of the 4 directed edges incl. self-imports, every with/without-`as` choice per edge: 81 graphs; quick leaves out f1 importing itself: 27 graphs) and 3 files (quick: main imports f1, every subset and `as` choice of the edges between f1 and f2: 18 graphs; thorough: every subset of the 6 directed edges x every `as` choice: 729 graphs). Every file defines a public and a private function, enum, struct and method (thorough, 2 files without self-imports: additionally all 16 public/private masks of two functions, an enum and a struct). The main file makes exactly one reference per program to a (file, item) as `ns::item` or unqualified: function call, enum variant, enum type in a hint, struct literal, method call; in addition every imported file reachable from main makes one function reference to each file it imports (main calls it through a chain of public functions). Reference: visible(file, item, form) <=> main imports file in the style of the form and item is public. Oracle: a visible reference evaluates under `garden run` and gets no error-severity diagnostic on its line from `garden check --json`; a reference to a non-public definition of another file is an error in both tools; every project finishes within the wall cap (cyclic and self imports must not loop).",
